@@ -1,0 +1,35 @@
+//go:build verif
+
+package code
+
+// Machine-checked contracts for the gocv verifier (/verif/DESIGN.md). Comments only.
+
+// C19 "user imports are kept": whether an un-aliased import of a regenerated resolver file is still used is decided by
+// comparing selector names with the NAME of the imported package, which imports.Prune gets from NameForPackage. The
+// name of a package is a fact about its source (`package rand` in math/rand/v2), not about its import path: it comes
+// from the name cache (which only ever receives loader results), from an already loaded package, or from a name-only
+// load - the sanitized last path element is the fallback for a package the loader could not find, nothing else.
+//@ trusted NormalizeVendor(pkg) (s)
+//@   nopanic
+//@   pure
+//@ trusted SanitizePackageName(pkg) (s)
+//@   nopanic
+//@   pure
+//@ trusted path/filepath.Base(path) (s)
+//@   nopanic
+//@   pure
+//@ trusted errors.New(text) (err)
+//@   ensures err != nil
+//@   nopanic
+//@   pure
+//@ trusted golang.org/x/tools/go/packages.Load(cfg, patterns) (pkgs, err)
+//@   ensures err == nil ==> len(pkgs) > 0
+//@ func (*Packages).NameForPackage [C19]
+//@   requires p != nil
+//@   ghost hit = false
+//@   ghost loaded = false
+//@   at! `assign name` ghost hit = rhs0 != ""
+//@   at! `assign pkg` ghost loaded = loaded || (calls(Load) == 0 && rhs0 != nil)
+//@   at `assign p.importToName[*]` requires pkg != nil && rhs0 == pkg.Name && rhs0 != ""
+//@   at! `SanitizePackageName(filepath.Base(importPath))` requires pkg == nil || pkg.Name == ""
+//@   ensures !panicked && !hit && !loaded ==> calls(Load) == 1
